@@ -8,7 +8,7 @@ import copy
 
 from harness.drivers.base import guarded, main
 from harness.drivers.gramlib import extract, load_decl
-from harness.drivers.synth import Canon, RecordingSource, alts_obs, labels_obs, mk_decider
+from harness.drivers.synth import Canon, ExtremeSource, RecordingSource, alts_obs, labels_obs, mk_decider
 from harness.tape import ratio
 
 
@@ -105,7 +105,8 @@ def case_rep(c):
     if "exc" in rg:
         return {"phase": "extract", "res": rg}
     g = rg["ok"]
-    shared = RecordingSource(c["seed"])
+    # the shared source: a recorded pseudo-random stream, or scripted extreme answers (always the lowest / highest / alternating value of the requested range)
+    shared = ExtremeSource([], c["shared"]) if c.get("shared") in ("min", "max", "alt", "mid") else RecordingSource(c["seed"])
     rr = guarded(lambda: Rep(c["rep"], g, classes, shared))
     if "exc" in rr:
         return {"phase": "construct", "res": rr}
@@ -115,6 +116,7 @@ def case_rep(c):
     out = []
     for op in c["ops"]:
         pos0 = len(shared.tape)
+        tape_entry = lambda d: [d[0], d[1] if d[0] == "i" else list(d[1])]  # noqa: E731
         alts0 = alts_obs(g, classes)
         snaps0 = [R.snapshot(x) for x in reg]
         exp0 = getattr(R.decider, "expanding", None) if R.decider is not None else None
@@ -155,7 +157,7 @@ def case_rep(c):
             continue          # an earlier operation failed, the genotype this one refers to does not exist
         r = guarded(run)
         rec["res"] = r
-        rec["consumed"] = shared.tape[pos0:]
+        rec["consumed"] = [tape_entry(d) for d in shared.tape[pos0:]]
         rec["alts_before"], rec["alts_after"] = alts0, alts_obs(g, classes)
         snaps1 = [R.snapshot(x) for x in reg[: len(snaps0)]]
         rec["changed"] = [i for i, (a, b) in enumerate(zip(snaps0, snaps1)) if a != b and not extends(a, b)]
